@@ -6,12 +6,18 @@
 package funcs
 
 import (
+	"fmt"
+
 	"github.com/GuanceCloud/platypus/pkg/ast"
 	"github.com/GuanceCloud/platypus/pkg/engine/runtime"
 	"github.com/GuanceCloud/platypus/pkg/errchain"
 )
 
 func ExitChecking(ctx *runtime.Task, node *ast.CallExpr) *errchain.PlError {
+	if len(node.Param) != 0 {
+		return runtime.NewRunError(ctx, fmt.Sprintf(
+			"func %s expects 0 args", node.Name), node.NamePos)
+	}
 	return nil
 }
 
